@@ -209,6 +209,26 @@ func genCase(t *rapid.T) Case {
 		}
 		c.Blocks[j].Txs = append(c.Blocks[j].Txs, ck.Action{Kind: st.kind, S: st.s, From: payer, N: v2, Nonce: nonce + 1, Fail: true})
 	}
+	// Nested-block storyline (aimed at native caches updated around a callback): a contract holds NEO and votes, its
+	// payment callback is told to block ANOTHER account when GAS is minted to it, then the committee blocks the
+	// contract's account: revoking its vote pays its reward, the callback runs in the middle of Policy.blockAccount.
+	if n >= 5 && rapid.IntRange(0, 4).Draw(t, "nbstory") == 0 {
+		ct := rapid.IntRange(0, 1).Draw(t, "nb_contract")
+		cand := rapid.IntRange(0, ck.NCandidates-1).Draw(t, "nb_cand")
+		other := rapid.IntRange(0, ck.NAccounts-1).Draw(t, "nb_other")
+		nonce := rapid.Uint32().Draw(t, "nb_nonce")
+		i := rapid.IntRange(0, n-5).Draw(t, "nb_at")
+		put := func(at int, a ck.Action) {
+			a.Nonce = nonce
+			nonce++
+			c.Blocks[min(at, n-1)].Txs = append(c.Blocks[min(at, n-1)].Txs, a)
+		}
+		put(i, ck.Action{Kind: "register", From: ck.NAccounts + cand, A: cand})
+		put(i, ck.Action{Kind: "neo_transfer", From: ck.PValidators, A: ck.PContract0 + ct, N: int64(rapid.IntRange(1, 500).Draw(t, "nb_neo"))})
+		put(i+1, ck.Action{Kind: "invoke", S: "vote_self", From: rapid.IntRange(0, 3).Draw(t, "nb_from"), A: ct, B: cand})
+		put(i+1+rapid.IntRange(0, 1).Draw(t, "nb_set_d"), ck.Action{Kind: "invoke", S: "set_onmint", From: rapid.IntRange(0, 3).Draw(t, "nb_from2"), A: ct, B: other})
+		put(i+3+rapid.IntRange(0, 1).Draw(t, "nb_blk_d"), ck.Action{Kind: "policy", S: "blockAccount", From: 4 + rapid.IntRange(0, 1).Draw(t, "nb_payer"), A: ck.PContract0 + ct})
+	}
 	// Oracle storyline (requests pending across flushes and restarts, answered later; the designated oracle nodes may
 	// change in between; the callback stores the result, or throws after doing so).
 	if n >= 3 && rapid.IntRange(0, 3).Draw(t, "orstory") == 0 {
